@@ -540,14 +540,14 @@ func TestVerif_C09_pending(t *testing.T) {
 		rd := &vCCIPReader{
 			CommitReportsFn: func(dest cciptypes.ChainSelector, t time.Time, limit int) ([]plugintypes2.CommitPluginReportWithMeta, error) {
 				if readerErr {
-					return nil, vErr
+					return nil, vErrNext()
 				}
 				return crs, nil
 			},
 			ExecutedFn: func(source, dest cciptypes.ChainSelector, q cciptypes.SeqNumRange) ([]cciptypes.SeqNumRange, error) {
 				if source == execErrChain {
 					calls = append(calls, call{source, q, nil, true})
-					return nil, vErr
+					return nil, vErrNext()
 				}
 				for _, cw := range chains {
 					if cw.sel == source {
